@@ -42,7 +42,7 @@ TABLE["C15"] = dict(run=_c15, replay=lambda p, path: smallfam.replay(p, path, dr
 
 
 # ------------------------------------------------------------------------------------------
-RTMR_INV = "TypeOK" and "RefusedWritesNothing OneEntryPerIndex ExactlyOneExtend RegistersAreChains NothingElseBound ExportCase"
+RTMR_INV = "TypeOK" and "RefusedWritesNothing OneEntryPerIndex ExactlyOneExtend RegistersAreChains NothingElseBound FaultedExtendsNothing ExportCase"
 
 
 def _rtmr_cfg(tier):
@@ -68,6 +68,25 @@ def _c17_cases(cases, tier):
         cases.append(dict(init="empty", hist=[r]))
         cases.append(dict(init="unrelated", hist=[ok, r]))
         cases.append(dict(init="empty", hist=[r, ok]))
+    # indices beyond 32 bits (TLC's integers are 32-bit: 1000000 + x stands for 2^32 + x, 2000000 + x for 2^62 + x; the driver translates):
+    # outside 0-3 although their low 32 bits are a valid index
+    for code in (1000000, 1000001, 1000002, 1000003, 2000000, 2000003):
+        for r in (dict(kind="digest", index=code, dlen=48, hash="none", log="none"), dict(kind="log", index=code, dlen=48, hash="sha384", log="nonempty")):
+            cases.append(dict(init="empty", hist=[r]))
+            cases.append(dict(init="two", hist=[ok, r]))
+            cases.append(dict(init="unrelated", hist=[r, ok]))
+    # TSM faults: each write operation failing in a call that reaches it (fresh entry needed / entry already bound), followed by a call that
+    # must be unaffected; also a fault that is never reached
+    log2 = dict(kind="log", index=2, dlen=48, hash="sha384", log="nonempty")
+    dig2 = dict(kind="digest", index=2, dlen=48, hash="none", log="none")
+    for fault in ("mkdir", "index", "digest"):
+        for base in (log2, dig2):
+            f = dict(base, fault=fault)
+            for init in ("empty", "unrelated", "unbound", "two"):
+                cases.append(dict(init=init, hist=[f, log2]))
+                cases.append(dict(init=init, hist=[f, dict(log2, index=1)]))
+                cases.append(dict(init=init, hist=[ok, f, log2]))
+                cases.append(dict(init=init, hist=[f, f, dig2]))
     return cases
 
 
@@ -264,7 +283,8 @@ def _policy(prop, tier, mode):
     return code
 
 
-TABLE["C08"] = dict(run=lambda p, t: _policy(p, t, "options"),
+# C08 speaks of every policy, however it reaches validate.TdxQuote: as an Options value or as a policy message converted by PolicyToOptions
+TABLE["C08"] = dict(run=lambda p, t: _policy(p, t, ""),
                     replay=lambda p, path: smallfam.replay(p, path, driver="policy", trace_module="Policy_Trace", trace_consts="  K = 0\n  Focus = {}\n"))
 TABLE["C14"] = dict(run=lambda p, t: _policy(p, t, "policy"),
                     replay=lambda p, path: smallfam.replay(p, path, driver="policy", trace_module="Policy_Trace", trace_consts="  K = 0\n  Focus = {}\n"))
